@@ -13,7 +13,7 @@ META = {
         "values depending on it are the signal labels appended to the signal list, which reach only component 1 of the cell-map entries (component 0, the satellite map, all counters, "
         "bit tests and every branch condition are independent of it - no implicit flow); the single-field routine reads component 1 only for the cell-signal type (shared C09-D2); "
         "D2 the label is table[signal ID][k] with k chosen by the option alone (one construction site); D3 forwarding chain reader option -> field -> parse keyword -> parse parameter "
-        "-> message keyword -> message field; D4 the map builder is invoked only at the cell mask, which occurs only in the 49 MSM definitions."
+        "-> message keyword -> message field; D4 the map builder is invoked only at the cell mask, which occurs only in the 49 MSM definitions. Shared: the scan schema of the mask maps (C09-D1/D2) - a cell carries the label of the signal its mask bit stands for only if bits and (satellite, signal) positions are paired correctly."
     ),
     "trusted": ["CPython ast parser", "sa/symeval.py term dependence"],
 }
@@ -32,6 +32,11 @@ def run(eng, ctx):
     LF = lambda s: s[0] in ("field", "fieldv") and s[1] == lf  # noqa: E731
     mb = eng.repo.func(eng.map_builder)
     ctx.touch(func=mb.qualname, file=eng.repo.relpath(mod))
+    # "a given constellation's signal ID is labelled identically wherever it occurs" includes the cells: a cell carries the label of the signal its
+    # mask bit stands for only if the cell scan pairs bits and (satellite, signal) positions correctly (C09-D1/D2, shared)
+    from . import C09 as MSMMAPS
+
+    MSMMAPS.run(eng, ctx, layout_only=True)
     # ---------------- D1
     ctx.rule("C16.D1", "the option field is loaded only in the map builder; there it influences only the labels appended to the signal list -> component 1 of the cell map; no branch condition depends on it")
     nload = 0
